@@ -1,5 +1,5 @@
 (** Extraction of the runnable definitions (ExtrOcamlBasic only; N/Z/positive/nat stay inductive). *)
-From Bbolt Require Import Base Freelist Spec Layout Cursor Pager Compact.
+From Bbolt Require Import Base Freelist Spec Layout Cursor Pager Compact Grow.
 Require Import ExtrOcamlBasic.
 Extraction Blacklist List String.
 Separate Extraction
@@ -13,4 +13,5 @@ Separate Extraction
   Cursor.api_call Cursor.list_call Cursor.flatten Cursor.nodes Cursor.depth Cursor.has_empty_leaf Cursor.api_run Cursor.list_run Cursor.wf Cursor.fuel_for
   Layout.open_model Layout.meta_valid
   Compact.compact Compact.wf_ents
+  Grow.alloc_refused Grow.grow Grow.grow_nosync Grow.mmap_size
   Pager.pstep Pager.pg_open Pager.scan_free Pager.commit_writes Pager.pend_pages Pager.minus.
